@@ -2,7 +2,9 @@
 mpn_powm / mpn_redc_n rely on (formerly "run only").  Memory model lean/Mpir/Model/Binvert.lean: the precision
 schedule sizes[], the base case through mpn_sb_bdiv_q (limb-wise Hensel loop) or mpn_dc_bdiv_q, the Newton steps
 with the real mpn_mulmod_bnm1 wrap-around product, mpn_sub_1, mpn_mullow_n (2k limbs stored) and mpn_neg, every
-access to rp[0..n) and to the scratch of mpn_binvert_itch (n) limbs bounds-checked.  Ops prefix `bi_`."""
+access to rp[0..n) and to the scratch of mpn_binvert_itch (n) limbs bounds-checked.  Ops prefix `bi_`.
+Theorems: Props/C08_binvert.lean (mpn_binvert_correct for every n, odd U and threshold; pinned next-size discharge; the
+value equals Powm.binvert, i.e. the mip of mpn_powm's model)."""
 from genlib import *
 
 LEAN_MODULES = ["MpirProofs.Props.C08_binvert"]
